@@ -127,15 +127,21 @@ func (w *World) manualSummary(f *ssa.Function) *Summary {
 		s.Returns[0] = []Loc{{Root: Root{Kind: RParam, Param: 0}}}
 		return s
 	case "(*BigInt).innerOrAlias", "(*BigInt).innerOrNilOrAlias", "(*BigInt).innerOrNil":
-		// Like inner: the result is always a view of the receiver (when `ai` is
-		// returned the receiver IS `a`, whose view `ai` is — checked by C05.R2),
-		// or nil.
+		// Like inner: the result is a view of the receiver, or — when the
+		// receiver is the same object as `a` — the caller's view `ai` of it
+		// (the pointer passed in, whatever it points to), or nil for a nil
+		// receiver in the OrNil variants.
 		s := w.newSummary(f)
 		s.Manual = true
 		s.Reads[0][allFields] = true
 		s.StorageOnly[0][allFields] = true
 		s.Writes[1][allFields] = true
-		s.Returns[0] = []Loc{{Root: Root{Kind: RParam, Param: 0}}, {Root: Root{Kind: RNil}}}
+		// Locations name objects: when `ai` is returned the receiver is the same object as `a`, so the
+		// object viewed is the receiver's in every case (that `ai` is indeed a view of `a` is C05.R2's business).
+		s.Returns[0] = []Loc{{Root: Root{Kind: RParam, Param: 0}}}
+		if w.shortName(f) != "(*BigInt).innerOrAlias" {
+			s.Returns[0] = append(s.Returns[0], Loc{Root: Root{Kind: RNil}})
+		}
 		return s
 	case "noescape":
 		s := w.newSummary(f)
